@@ -215,7 +215,15 @@ func sequences(c *rig.Ctx) {
 				for m.Mem.Read(0xff44) != 0 {
 					tick(1)
 				}
-				tick(lcdref.FrameLen)
+				// while the frame is drawn the guest may store to the read-only LY (nothing in
+				// the scene changes by that)
+				k1 := r.Intn(lcdref.FrameLen)
+				tick(k1)
+				if r.Chance(1, 2) {
+					m.Mem.Write(0xff44, r.U8())
+					c.Count("sequence_ly_stores_mid_frame", 1)
+				}
+				tick(lcdref.FrameLen - k1)
 			}
 			if !compareFrame(c, m, s, fmt.Sprintf("sequence %d, scene %d (after %d stores in the vertical blank):", i, st+1, len(ws))) {
 				return
